@@ -184,7 +184,7 @@ pub(super) fn defset(p: &mut Parser) {
     p.start_node(SyntaxKind::Defset);
     p.assert(T![defset]);
     r#type::r#type(p);
-    value::identifier(p);
+    value::identifier(p).or_error(p, "expected identifier after defset type");
     p.expect(T![=]);
     statement_list(p, StatementListType::Block);
     p.finish_node();
@@ -194,7 +194,7 @@ pub(super) fn defset(p: &mut Parser) {
 pub(super) fn defvar(p: &mut Parser) {
     p.start_node(SyntaxKind::Defvar);
     p.assert(T![defvar]);
-    value::identifier(p);
+    value::identifier(p).or_error(p, "expected identifier after defvar");
     p.expect(T![=]);
     value::value(p);
     p.expect(T![;]);
@@ -319,7 +319,7 @@ pub(super) fn parent_class_list(p: &mut Parser) {
 // ClassRef ::= Identifier ( "<" ArgValueList? ">" )?
 pub(super) fn class_ref(p: &mut Parser) {
     p.start_node(SyntaxKind::ClassRef);
-    value::identifier(p);
+    value::identifier(p).or_error(p, "expected name for ClassID");
     if p.eat_if(T![<]) {
         arg_value_list(p);
         p.expect_with_msg(T![>], "expected '>' in template value list");
